@@ -154,4 +154,36 @@ theorem execD_vmov_store_k1 (a kk b : Nat) (disp : Int) (gb av : Nat) (mem' : Li
     List.range, List.range.loop, List.foldlM, hstore']
 
 end
+
+/-- a listing that decodes (byte offsets aside) to the straight-line block `code` followed by RET runs as `code` -/
+theorem run_of_decode (l : List Instr) (code : List DInstr)
+    (hd : (Routine.ofListing l).toOption.map (fun r => r.map erasePc) = some (code ++ [ins .RET [] 0]))
+    (hnc : code.all (fun i => !i.mn.isControl) = true) (fuel : Nat) (hf : code.length < fuel)
+    (s s' : State) (h : execList code s = .ok s') : run l fuel s = .ok s' := by
+  cases hr : Routine.ofListing l with
+  | error e => rw [hr] at hd; simp [Except.toOption] at hd
+  | ok r =>
+    rw [hr] at hd
+    simp only [Except.toOption, Option.map_some, Option.some.injEq] at hd
+    obtain ⟨body, rest, rfl, hbody, hrest⟩ := List.map_eq_append_iff.mp hd
+    obtain ⟨ret, rfl, hret⟩ : ∃ ret, rest = [ret] ∧ erasePc ret = ins .RET [] 0 := by
+      cases rest with
+      | nil => simp at hrest
+      | cons a t =>
+        cases t with
+        | nil => exact ⟨a, rfl, by simpa using hrest⟩
+        | cons b u => simp at hrest
+    have hmn : ret.mn = .RET := by have := congrArg DInstr.mn hret; simpa [erasePc, ins] using this
+    have hops : ret.ops = [] := by have := congrArg DInstr.ops hret; simpa [erasePc, ins] using this
+    have hexec : execList body s = .ok s' := by rw [← execList_erase, hbody]; exact h
+    have hlen : body.length = code.length := by rw [← hbody, List.length_map]
+    have hc : ∀ i ∈ body, i.mn.isControl = false := by
+      intro i hi
+      rw [← hbody, List.all_eq_true] at hnc
+      have := hnc (erasePc i) (List.mem_map_of_mem hi)
+      simpa [erasePc] using this
+    unfold run
+    rw [hr]
+    exact runFrom_straight _ body ret [] hc hmn hops fuel (by omega) s s' hexec
+
 end SMGo.Proofs.ISAVal
